@@ -17,7 +17,7 @@ EXTENDS Integers, Sequences, TLC
 CDQ  == "\""
 CBSL == "\\"
 
-CssLower == {"a","e","h","i","l","m","o","p","r","s","t","u","y","f","z"}
+CssLower == {"a","e","h","i","l","m","n","o","p","r","s","t","u","y","f","z"}     \* n: for `!important`
 CssUpper == {"U","R","L","S","Z"}            \* U R L S: case-insensitive matches of url( and </style, https
 CssPunct == {";", ":", "{", "}", "(", ")", "[", "]", CDQ, "'", CBSL, "/", "*", "<", ">", ",", "@", "!", "#", "PCT",
              "-", "+", ".", "_", "&", "?", "OP"}
